@@ -52,13 +52,26 @@ def _crystals():
         "rect4i": (lambda: crystal.Crystal(A * np.array([[1., 0.], [0., 1.6]]),
                                            [np.array([0., .2]), np.array([.5, .35]), np.array([0., .8]),
                                             np.array([.5, .65])]), 0.85),
+        # a SPARSE, user-selected jump network (third entry: the jump lengths kept): layered tetragonal cell,
+        # c/a = 2.5, in-plane and interlayer first-neighbour hops only. Some states reached with three jumps are
+        # shorter than the longest jump, so the order of stars (and of vector stars) is not the same at every range
+        "tetlayer": (lambda: crystal.Crystal(A * np.diag([1., 1., 2.5]), [np.zeros(3)]), 2.55, (1.0, 2.5)),
     }
+
+
+def world_jumpnetwork(crys, chem, cut, lengths=None):
+    """The jump network of a world: everything within the cutoff, or (sparse worlds) only the jump types whose
+    length is one of `lengths` -- a selection a user makes by hand from crys.jumpnetwork()."""
+    jn = crys.jumpnetwork(chem, cut)
+    if lengths is not None:
+        jn = [jl for jl in jn if any(abs(np.sqrt(np.dot(jl[0][1], jl[0][1])) - A * L) < 1e-6 for L in lengths)]
+    return jn
 
 
 CRYSTALS = _crystals()
 CHEAP = ("sc", "fcc", "bcc", "diamond", "square", "tria", "honey", "triadisp", "rect2w")
 QUICK_WORLDS = ("sc", "fcc", "bcc", "hcp", "diamond", "square", "tria", "honey", "b2disp", "triadisp", "rect2w", "rect4i", "nbo",
-                "oblique", "oblique2", "mono", "scnosym")
+                "oblique", "oblique2", "mono", "scnosym", "tetlayer")
 ALL_WORLDS = QUICK_WORLDS + ("tet2w",)
 if os.environ.get("CALCSIM_WORLDS"):      # A/B experiments only (e.g. "was this caught before world X existed?")
     QUICK_WORLDS = ALL_WORLDS = tuple(os.environ["CALCSIM_WORLDS"].split(","))
@@ -136,12 +149,13 @@ class WorldData(object):
 
     def __init__(self, name):
         self.name = name
-        make, cut = CRYSTALS[name]
+        make, cut = CRYSTALS[name][:2]
+        self.lengths = CRYSTALS[name][2] if len(CRYSTALS[name]) > 2 else None
         self.crys = make()
         self.cut = cut
         self.chem = CHEMS.get(name, CHEM)
         self.sitelist = self.crys.sitelist(self.chem)
-        self.jumpnetwork = self.crys.jumpnetwork(self.chem, cut)
+        self.jumpnetwork = world_jumpnetwork(self.crys, self.chem, cut, self.lengths)
         self.pristine = {}
         self.images = {}
 
